@@ -121,7 +121,9 @@ class LinearAlgebraMethods(object):
         # get from cache if possible
         if use_cache and isinstance(A, ctx.matrix) and A._LU and \
                 A._LU_prec >= ctx.prec:
-            return A._LU
+            # (a copy: the caller may modify what it is given)
+            LU, p = A._LU
+            return LU.copy(), p[:]
         if not overwrite:
             orig = A
             A = A.copy()
@@ -155,7 +157,7 @@ class LinearAlgebraMethods(object):
             # invalidate, store, validate: an interrupt between the stores
             # must not leave factors under the wrong precision
             orig._LU_prec = 0
-            orig._LU = (A, p)
+            orig._LU = (A.copy(), p[:])
             orig._LU_prec = ctx.prec
         return A, p
 
